@@ -29,10 +29,10 @@ import (
 
 type vfMem struct{ data []byte }
 
-func (s *vfMem) Name() string                          { return "verif-mem" }
-func (s *vfMem) Close()                                {}
-func (s *vfMem) Size() (uint32, error)                 { return uint32(len(s.data)), nil }
-func (s *vfMem) Read(off, sz uint32) ([]byte, error)   { return s.data[off : off+sz], nil }
+func (s *vfMem) Name() string                        { return "verif-mem" }
+func (s *vfMem) Close()                              {}
+func (s *vfMem) Size() (uint32, error)               { return uint32(len(s.data)), nil }
+func (s *vfMem) Read(off, sz uint32) ([]byte, error) { return s.data[off : off+sz], nil }
 
 var vfC01Tokens = []string{"a", "b", "ab", "aa", "aaa", "abab", "foo", "Foo", "FOO", "bar", "Bar", "k", "K", "K", "é", "É",
 	"x_1", " ", " ", "\n", "\n", ".", "-", "a a", "foo bar", "fooé", "éa"}
@@ -103,12 +103,12 @@ type vfC01Corpus struct {
 
 func vfC01GenCorpus(r *vfRand) vfC01Corpus {
 	var c vfC01Corpus
-	nrepos := 1 + r.Intn(3)
-	if r.Chance(40) {
+	nrepos := 1 + r.Intn(4)
+	if r.Chance(35) {
 		nrepos = 1
 	}
 	ndocs := 1 + r.Intn(10)
-	repoNames := []string{"repo/a", "repo/b", "other", "repo/foo"}
+	repoNames := []string{"repo/a", "repo/b", "other", "repo/foo", "repo/c"}
 	brNames := []string{"main", "HEAD", "dev", "release/1", "mainline"}
 	for i := 0; i < nrepos; i++ {
 		repo := &zoekt.Repository{Name: repoNames[(i+r.Intn(2))%len(repoNames)] + fmt.Sprint(i), ID: uint32(10 + i*7 + r.Intn(3))}
@@ -121,7 +121,7 @@ func vfC01GenCorpus(r *vfRand) vfC01Corpus {
 		for j := 0; j < nb; j++ {
 			repo.Branches = append(repo.Branches, zoekt.RepositoryBranch{Name: brNames[perm[j]], Version: fmt.Sprint("v", j)})
 		}
-		if r.Chance(15) && nrepos > 1 {
+		if r.Chance(28) && nrepos > 1 {
 			repo.Tombstone = true
 		}
 		repo.RawConfig = map[string]string{}
@@ -246,11 +246,12 @@ func vfC01ReadBack(t testing.TB, d *indexData) []vfC01Doc {
 // ---------------------------------------------------------------- query generation
 
 type vfC01Env struct {
-	d     *indexData
-	docs  []vfC01Doc
-	pats  []string // substrings of real names / contents, and noise
-	rsrc  map[*query.Regexp]string
-	rsrc2 map[*regexp.Regexp]string
+	d        *indexData
+	docs     []vfC01Doc
+	pats     []string // substrings of real names / contents, and noise
+	rsrc     map[*query.Regexp]string
+	rsrc2    map[*regexp.Regexp]string
+	focusSet []bool
 }
 
 func vfC01Sub(r *vfRand, s string) string {
@@ -367,6 +368,18 @@ func (e *vfC01Env) symPat(r *vfRand) string {
 	dd := e.docs[cand[r.Intn(len(cand))]]
 	rs := []rune(dd.content)
 	sec := dd.secs[r.Intn(len(dd.secs))]
+	if r.Chance(30) { // a pattern that starts exactly where an adjacent previous section ends (the walk must move on to this section)
+		for _, k := range cand {
+			d2 := e.docs[k]
+			for i := 1; i < len(d2.secs); i++ {
+				if d2.secs[i-1][1] == d2.secs[i][0] && d2.secs[i][1]-d2.secs[i][0] >= 3 {
+					r2 := []rune(d2.content)
+					n := 3 + r.Intn(d2.secs[i][1]-d2.secs[i][0]-2)
+					return string(r2[d2.secs[i][0] : d2.secs[i][0]+n])
+				}
+			}
+		}
+	}
 	clamp := func(a, b int) string {
 		if a < 0 {
 			a = 0
@@ -444,12 +457,44 @@ func (e *vfC01Env) symAtom(r *vfRand) query.Q {
 	return &query.Symbol{Expr: q}
 }
 
+// focus: membership of repository i in a repo-level filter. Usually a coin flip; when the shard has tombstoned repositories, half
+// of the time the filter takes every tombstoned repository plus as many alive ones as make (matching incl. tombstoned) = (alive) -
+// the coincidence at which simplifyMultiRepo's counting matters (a filter must not fold to TRUE because tombstoned repositories match).
+func (e *vfC01Env) focus(r *vfRand, i int) bool {
+	d := e.d
+	if e.focusSet == nil || len(e.focusSet) != len(d.repoMetaData) || i == 0 {
+		e.focusSet = make([]bool, len(d.repoMetaData))
+		var alive, dead []int
+		for j := range d.repoMetaData {
+			if d.repoMetaData[j].Tombstone {
+				dead = append(dead, j)
+			} else {
+				alive = append(alive, j)
+			}
+		}
+		if len(dead) > 0 && len(alive) > len(dead) && r.Chance(70) {
+			for _, j := range dead {
+				e.focusSet[j] = true
+			}
+			off := r.Intn(len(alive)) // alive ones, chosen from a random rotation
+			for k := 0; k < len(alive)-len(dead); k++ {
+				e.focusSet[alive[(k+off)%len(alive)]] = true
+			}
+		} else {
+			for j := range e.focusSet {
+				e.focusSet[j] = r.Chance(50)
+			}
+		}
+	}
+	return e.focusSet[i]
+}
+
 func (e *vfC01Env) atom(r *vfRand) query.Q {
 	d := e.d
 	if r.Chance(14) {
 		return e.symAtom(r)
 	}
-	switch r.Intn(24) {
+	switch r.Intn(26) {
 	case 0, 1, 2, 3, 4, 5, 6:
 		s := &query.Substring{Pattern: e.pat(r), CaseSensitive: r.Chance(50)}
 		switch r.Intn(3) {
@@ -491,10 +536,10 @@ func (e *vfC01Env) atom(r *vfRand) query.Q {
 			return &query.Repo{Regexp: re}
 		}
 		return &query.RepoRegexp{Regexp: re}
-	case 15:
+	case 15, 24:
 		set := map[string]bool{}
-		for _, md := range d.repoMetaData {
-			if r.Chance(50) {
+		for i, md := range d.repoMetaData {
+			if e.focus(r, i) {
 				set[md.Name] = true
 			}
 		}
@@ -502,10 +547,10 @@ func (e *vfC01Env) atom(r *vfRand) query.Q {
 			set["nope"] = true
 		}
 		return &query.RepoSet{Set: set}
-	case 16:
+	case 16, 25:
 		var ids []uint32
-		for _, md := range d.repoMetaData {
-			if r.Chance(50) {
+		for i, md := range d.repoMetaData {
+			if e.focus(r, i) {
 				ids = append(ids, md.ID)
 			}
 		}
